@@ -291,9 +291,31 @@ def gen_c39(d, opts):
     return dict(config="c39", keys=pool, ops=ops, theory=th, operator=opc)
 
 
+def gen_c38h(d, opts):
+    """Multi-session histories for the crash-recovery stage of C38: the same
+    generator as C37 (sessions, puts, overwrites, unloads, closes, reopens) plus
+    metadata / parts / recipe edits; the faults are chosen at execution time
+    from the fault-free trace of the history."""
+    case = gen_c37(d, opts)
+    case["config"] = "c38h"
+    rpool = gen_recipes(d)
+    ops = []
+    uid = 500
+    for o in case["ops"]:
+        ops.append(o)
+        if o["op"] in ("put", "create", "open_rw") and d.chance("h:extra", 0.25):
+            for extra in gen_extras(d, f"h{o['id']}", rpool, uid)[:2]:
+                extra["id"] = 1000 + len(ops)
+                ops.append(extra)
+                uid += 1
+    case["ops"] = ops
+    case["nfaults"] = d.pick("h:nfaults", [1, 1, 2, 3])
+    return case
+
+
 def generate(seed, tier, opts):
     d = Decider(seed, "store-" + opts["config"])
-    case = dict(c37=gen_c37, c36=gen_c36, c39=gen_c39)[opts["config"]](d, opts)
+    case = dict(c37=gen_c37, c36=gen_c36, c39=gen_c39, c38h=gen_c38h)[opts["config"]](d, opts)
     case["seed"] = int(seed)
     return case
 
@@ -365,6 +387,8 @@ class Interp:
         self.th, self.opc = cards.build(case["theory"], case["operator"])
         self.card_raw = None
         self.sha_at_open = None
+        self.faulty = False
+        self.committed = ("absent",)  # logical content of the archive after the last successful commit
 
     # ---------------------------------------------------------------- utils
     def v(self, cls, msg, op=None, key=None):
@@ -503,6 +527,8 @@ class Interp:
             self.mutations += 1
             with self.sm.paused():
                 self.sha_at_open = _sha(self.path) if self.path.exists() else None
+                if self.faulty:
+                    self.committed = archive.logical_or_state(str(self.path), os.path.exists)
         else:
             self.scan_ro_trace()
             self.check_archive_unchanged(op, "close of read-only session")
@@ -521,10 +547,71 @@ class Interp:
         return True
 
     # ------------------------------------------------------------------ ops
+    def check_committed(self, op, when):
+        """Crash recovery: the archive holds exactly the last committed content."""
+        with self.sm.paused():
+            st = archive.logical_or_state(str(self.path), os.path.exists)
+        if st == self.committed:
+            return
+        if st[0] == "corrupt":
+            self.v("corrupt-after-failure", f"{when}: the archive is corrupt: {st[1]}", op, key="corrupt-after-failure:" + op["op"])
+        else:
+            what = "absent" if st[0] == "absent" else f"a complete archive with {len(st[1]) - 1} members"
+            was = "absent" if self.committed[0] == "absent" else f"a complete archive with {len(self.committed[1]) - 1} members"
+            self.v("changed-after-failure", f"{when}: the archive is {what}, different from the last committed content ({was})", op, key="changed-after-failure:" + op["op"])
+
+    def step_faulty(self, op, kind):
+        n0 = len(self.sm.faults_fired)
+        v0 = len(self.viol)
+        exc = None
+        try:
+            done = self.dispatch(op, kind)
+        except HarnessError:
+            raise
+        except Exception as e:  # create / low-level paths that the fault-free interpreter never sees raising
+            done, exc = True, e
+        fired = len(self.sm.faults_fired) > n0
+        new = self.viol[v0:]
+        raised = exc is not None or any(v["cls"].endswith("-raised") for v in new)
+        if fired and raised:
+            # the operation failed because of the injected fault: the session (if
+            # any) dies here, as a `with` block left through an exception does
+            self.viol[v0:] = [v for v in new if not v["cls"].endswith("-raised")]
+            self.model.sess = None
+            self.eko = None
+            self.probes["sessions_failed_by_fault"] = self.probes.get("sessions_failed_by_fault", 0) + 1
+            self.probes["fault_in:" + kind] = self.probes.get("fault_in:" + kind, 0) + 1
+            if not self.viol:
+                self.check_committed(op, f"after {kind} failed with an injected fault")
+            self.note(op["id"], kind, "failed", len(self.viol))
+            return None
+        if exc is not None:
+            self.v("raised-without-fault", f"{kind} raised {exc!r} although no fault was injected into it", op)
+            return None
+        if fired:
+            self.probes["faults_absorbed"] = self.probes.get("faults_absorbed", 0) + 1
+        return done
+
     def step(self, op):
         kind = op["op"]
         self.sm.trace.begin_op(op["id"])
-        done = self.dispatch(op, kind)
+        if self.faulty:
+            if not self.session_open() and kind not in ("create", "open_rw", "open_ro", "close", "abandon") and not self.viol:
+                # restart after a crash: the user re-opens (or re-creates) and carries on
+                again = "open_rw" if self.model.disk is not None else "create"
+                self.sm.trace.begin_op(5000 + op["id"])
+                r = self.step_faulty(dict(id=5000 + op["id"], op=again), again)
+                self.probes["restarts"] = self.probes.get("restarts", 0) + 1
+                if r and not self.viol:
+                    self.check_visible(op)
+                self.sm.trace.begin_op(op["id"])
+                if self.viol:
+                    return
+            done = self.step_faulty(op, kind)
+            if done is None:
+                return
+        else:
+            done = self.dispatch(op, kind)
         if done:
             self.executed += 1
             self.bigrams.add((self.prev_kind, kind))
@@ -866,7 +953,7 @@ def final_audit(it):
             m.sess = None
         return
     if it.session_open() and it.eko is not None:
-        it.do_close(dict(id=-2, op="close"))
+        it.step(dict(id=-2, op="close"))
     if m.disk is None or it.viol:
         return
     with it.sm.paused():
@@ -930,24 +1017,80 @@ def final_audit(it):
                 return
 
 
+def _run_history(case, root, faults=None):
+    os.makedirs(os.path.join(root, "out"))
+    d = Decider(case["seed"], "fs")
+    tr = seams.Trace()
+    sm = seams.Seams(root, d, trace=tr, plan=seams.FaultPlan(faults or []), trace_reads=bool(case["config"] == "c38h"), cpu_count=4)
+    with sm:
+        it = Interp(case, root, sm)
+        it.faulty = case["config"] == "c38h"
+        for op in case["ops"]:
+            it.step(op)
+            if it.viol:
+                break
+        if not it.viol:
+            final_audit(it)
+    return it, tr, sm
+
+
+def choose_faults(case, events):
+    """1-3 fault sites from the fault-free trace, commit phases over-weighted."""
+    from .crash import fs_fault_for
+
+    d = Decider(case["seed"], "history-faults")
+    kinds = {o["id"]: o["op"] for o in case["ops"]}
+    pool, weights = [], []
+    for ev in events:
+        k = kinds.get(ev[1])
+        if k is None:
+            continue
+        w = {"close": 6.0, "open_rw": 2.0, "open_ro": 1.0, "create": 0.4, "put": 2.0}.get(k, 1.0)
+        if str(ev[4]).startswith("out/"):
+            w *= 3.0
+        pool.append(ev)
+        weights.append(w)
+    out = []
+    for _ in range(min(case.get("nfaults", 1), len(pool))):
+        x = d.uniform("site") * sum(weights)
+        acc = 0.0
+        for i, w in enumerate(weights):
+            acc += w
+            if x < acc:
+                break
+        ev = pool.pop(i)
+        weights.pop(i)
+        f = fs_fault_for(d, ev)
+        f["in_op"] = kinds.get(ev[1])
+        out.append(f)
+    return out
+
+
 def execute(case):
+    faults = None
+    ref_events = 0
+    if case["config"] == "c38h":
+        faults = case.get("faults")
+        if faults is None:
+            with Scratch("store") as root:
+                it0, tr0, _ = _run_history(case, root, [])
+                if it0.viol:
+                    # fault-free pass already violates (C37's business; report it here too)
+                    return dict(violations=it0.viol, digest=tr0.digest(), probes=it0.probes, nops=len(case["ops"]))
+                ref_events = tr0.n
+                faults = choose_faults(case, tr0.events)
     with Scratch("store") as root:
-        os.makedirs(os.path.join(root, "out"))
-        d = Decider(case["seed"], "fs")
-        tr = seams.Trace()
-        sm = seams.Seams(root, d, trace=tr, trace_reads=False, cpu_count=4)
-        with sm:
-            it = Interp(case, root, sm)
-            for op in case["ops"]:
-                it.step(op)
-                if it.viol:
-                    break
-            if not it.viol:
-                final_audit(it)
+        it, tr, sm = _run_history(case, root, faults)
         digest = hashlib.sha256((tr.digest() + it.obs.hexdigest()).encode()).hexdigest()
         sample = None
         if case["seed"] % 97 == 0 or it.viol:
-            sample = dict(config=case["config"], keys=[values.key_id(k) for k in case["keys"]], ops=[(o["op"], values.key_id(o["key"]) if "key" in o else None) for o in case["ops"]])
+            sample = dict(config=case["config"], keys=[values.key_id(k) for k in case["keys"]], ops=[(o["op"], values.key_id(o["key"]) if "key" in o else None) for o in case["ops"]], faults=faults)
+        for v in it.viol:
+            if faults is not None:
+                v["faults"] = faults
+        fired = {}
+        for f in sm.faults_fired:
+            fired[f.get("kind", "oserror")] = fired.get(f.get("kind", "oserror"), 0) + 1
         return dict(
             violations=it.viol,
             digest=digest,
@@ -957,14 +1100,26 @@ def execute(case):
             states=sorted(it.states),
             bigrams=sorted(f"{a}>{b}" for a, b in it.bigrams),
             probes=it.probes,
-            sim_events=tr.n,
+            sim_events=tr.n + ref_events,
             sample=sample,
             nops=len(case["ops"]),
+            faults_planned=len(faults or []),
+            faults_fired=fired,
+            fault_sigs=sorted(set((f.get("in_op"), f.get("site"), f.get("kind")) for f in (faults or []))),
         )
 
 
-def shrink(case, res, still, ddmin):
+def focus(case, v):
     c = dict(case)
+    if v.get("faults") is not None:
+        c["faults"] = v["faults"]
+    return c
+
+
+def shrink(case, res, still, ddmin):
+    c = focus(case, res["violations"][0])
+    if not still(c):
+        return case
 
     def fails(sub):
         t = dict(c)
@@ -986,6 +1141,7 @@ ASSUMPTIONS = [
 
 def summarize(results, tier):
     states, bigrams, digests = set(), set(), set()
+    fired, fsigs = {}, set()
     ex = sk = ev = 0
     probes = {}
     samples = []
@@ -1005,7 +1161,15 @@ def summarize(results, tier):
             samples.append(r["sample"])
         b = min(30, r.get("nops", 0)) // 5 * 5
         lens[f"{b}-{b + 4}"] = lens.get(f"{b}-{b + 4}", 0) + 1
+        for k, v in (r.get("faults_fired") or {}).items():
+            fired[k] = fired.get(k, 0) + v
+        for sg in r.get("fault_sigs", []):
+            fsigs.add(tuple(sg))
+    extra = {}
+    if fsigs:
+        extra = dict(distinct_fault_site_signatures=len(fsigs), note="histories run twice: a fault-free pass records the trace, 1-3 fault sites are drawn from it (commit phases over-weighted) and the history is re-run; an operation failing through an injected fault kills its session, after which the archive must hold exactly the last committed content")
     return dict(
+        **extra,
         evaluations=len(results),
         distinct_nontrivial=len(nontrivial),
         rule="one evaluation = one seeded operation history executed on a real EKO and on the persistent-map model in lock step (oracle after every operation, final audit with an independent archive reader); distinct_nontrivial = distinct run digests (seam trace + observations) among runs with at least one mutating store operation (put / committed close / store attempt)",
@@ -1018,6 +1182,6 @@ def summarize(results, tier):
         history_length_histogram=lens,
         probes=probes,
         sim_events=ev,
-        faults_fired={},
+        faults_fired=fired,
         components=dict(real=["eko.io.* (EKO, Inventory, items, metadata, tar dump/extract)", "kernel file system behind the FS seam"], stub=["temp names, clock, directory-listing order (simulated)"]),
     )
